@@ -8,7 +8,7 @@
 From DV Require Import Base.Prelude Model.NameM Model.DnssecM.
 From Coq Require Import Permutation Sorted.
 From DV Require Import Proofs.NameValid Proofs.DnssecRef Proofs.DnssecCanon Proofs.DnssecKey.
-From DV Require Import Proofs.DnssecSort Proofs.DnssecRrsig.
+From DV Require Import Proofs.DnssecSort Proofs.DnssecRrsig Proofs.DnssecBitmap.
 Open Scope Z_scope.
 
 (* Rdata.to_digestable, for any per-type table that passes the RFC 4034 6.2 check, is the RFC
@@ -99,6 +99,17 @@ Theorem rrsig_labels_too_large_rejected : forall tbl r rrname rdclass rdtype rda
 Proof. exact make_rrsig_data_rejects_long_labels. Qed.
 Print Assumptions rrsig_labels_too_large_rejected.
 
+(* Bitmap.from_rdtypes: for every list of types (any order, duplicates, zeros) the produced blocks
+   are a well-formed RFC 4034 4.1.2 encoding (windows strictly increasing within 0..255, 1..32 octets
+   per window, all octets bytes, no trailing zero octet) that decodes to exactly the set of non-zero
+   types given, in ascending order *)
+Theorem bitmap_exact : forall ts,
+  Forall (fun t => 0 <= t <= 65535) ts ->
+  exists ws, from_rdtypes ts = Ok ws /\ bitmap_wf ws /\ strictly_increasing (bitmap_types ws) /\
+             forall t, In t (bitmap_types ws) <-> In t ts /\ t <> 0.
+Proof. exact from_rdtypes_members. Qed.
+Print Assumptions bitmap_exact.
+
 (* ---------- non-vacuity ---------- *)
 Example keytag_hyps_satisfiable :
   key_id 257 3 8 [1; 2; 3; 4; 5] = Ok (rfc_keytag (u16 257 ++ [3; 8] ++ [1; 2; 3; 4; 5]))
@@ -146,3 +157,8 @@ Proof.
   split; [split; [apply perm_swap|repeat constructor; vm_compute; congruence]|].
   vm_compute; reflexivity.
 Qed.
+
+Example bitmap_nonvacuous :
+  from_rdtypes [47; 1; 46; 1; 0; 1234] = Ok [(0, [64; 0; 0; 0; 0; 3]); (4, [0; 0; 0; 0; 0; 0; 0; 0; 0; 0; 0; 0; 0; 0; 0; 0; 0; 0; 0; 0; 0; 0; 0; 0; 0; 0; 32])]
+  /\ bitmap_types [(0, [64; 0; 0; 0; 0; 3]); (4, [0; 0; 0; 0; 0; 0; 0; 0; 0; 0; 0; 0; 0; 0; 0; 0; 0; 0; 0; 0; 0; 0; 0; 0; 0; 0; 32])] = [1; 46; 47; 1234].
+Proof. split; vm_compute; reflexivity. Qed.
